@@ -289,11 +289,13 @@ async def run_gc(st, backend):
 spy_skeletons = False
 
 
-async def run_script(st, backend, uni, script, log_errors=None):
-    """returns the list of trace lines (python dicts, abstract)"""
+async def run_script(st, backend, uni, script, log_errors=None, keydump=None):
+    """returns the list of trace lines (python dicts, abstract); keydump(st) -> complete abstract key dump, stored as _keys"""
     rec = Recorder(st)
     lines = []
     for op in script:
+        if keydump is not None and lines and "post" in lines[-1] and "_keys" not in lines[-1]:
+            lines[-1]["_keys"] = await keydump(st)
         kind = op[0]
         if kind == "submit":
             sym = op[1]
@@ -361,6 +363,8 @@ async def run_script(st, backend, uni, script, log_errors=None):
                           "_conc": conc if op[0] == "rawquery" else None})
         else:
             raise ValueError(op)
+    if keydump is not None and lines and "post" in lines[-1] and "_keys" not in lines[-1]:
+        lines[-1]["_keys"] = await keydump(st)
     return lines
 
 
